@@ -186,7 +186,20 @@ func applySplitting(ssaFunc *ssa.Function, obfRand *mathrand.Rand) bool {
 		return false
 	}
 
-	splitIdx := 1 + obfRand.Intn(len(targetBlock.Instrs)-2)
+	// Phi nodes always lead a block and are tied to its predecessors,
+	// so all of them must stay in the first part.
+	minSplitIdx := 1
+	for i, instr := range targetBlock.Instrs {
+		if _, ok := instr.(*ssa.Phi); !ok {
+			break
+		}
+		minSplitIdx = i + 1
+	}
+	if len(targetBlock.Instrs)-1 <= minSplitIdx {
+		return false
+	}
+
+	splitIdx := minSplitIdx + obfRand.Intn(len(targetBlock.Instrs)-1-minSplitIdx)
 
 	firstPart := make([]ssa.Instruction, splitIdx+1)
 	copy(firstPart, targetBlock.Instrs)
